@@ -7,7 +7,7 @@ set -u
 ID=$1; PATCH=$(realpath "$2"); TIER=${3:-quick}
 SFX=${ISO_SUFFIX:-}; MR=/root/work/mutrepo$SFX; MV=/root/work/mutverif$SFX
 [ -d $MR ] || git -C /repo worktree add --detach $MR HEAD >/dev/null 2>&1
-cd $MR && git checkout -q -- . && git checkout -q --detach "$(git -C /repo rev-parse HEAD)" || exit 2
+cd $MR && git checkout -q -- . && git clean -fdq crates && git checkout -q --detach "$(git -C /repo rev-parse HEAD)" || exit 2
 mkdir -p $MV
 rsync -a --delete --exclude .git --exclude harness/target --exclude harness/Cargo.toml --exclude evidence --exclude replays ${VERIF_SRC:-/verif}/ $MV/
 mkdir -p $MV/evidence $MV/replays
@@ -16,5 +16,5 @@ cmp -s $MV/harness/Cargo.toml.new $MV/harness/Cargo.toml 2>/dev/null || cp $MV/h
 if ! git apply --check "$PATCH" 2>/dev/null; then echo "PATCH-DOES-NOT-APPLY"; exit 3; fi
 git apply "$PATCH"
 cd $MV && VERIF_REPO=$MR ./check "$ID" --tier "$TIER" | grep -v "^KNOWN-FINDING" | tail -6
-cd $MR && git checkout -q -- . && git status --short | head -3
+cd $MR && git checkout -q -- . && git clean -fdq crates && git status --short | head -3
 exit 0
